@@ -78,9 +78,14 @@ IsRotation(a, b) == /\ Len(a) = Len(b)
                     /\ Len(a) > 0
                     /\ \E sh \in 0..(Len(a) - 1) : \A i \in 1..Len(a) : a[i] = b[((i - 1 + sh) % Len(b)) + 1]
 NSeq(p)  == [ i \in 1..Len(p) |-> p[i][1] ]
-\* a ring of exported vertices is face f: the face's corners, in order (any starting corner)
-RingIsFace(m, p, f) == IsRotation(Open(NSeq(p)), Face(m, f))
-ClosedRing(p) == Len(p) >= 2 /\ p[1][1] = p[Len(p)][1] /\ p[1][1] # -2
+Reverse(a) == [ i \in 1..Len(a) |-> a[Len(a) + 1 - i] ]
+\* a ring of exported vertices is face f: the face's corners, in cyclic order (any starting corner; the
+\* engines normalise the winding of a ring, so either sense of traversal denotes the same polygon)
+RingIsFace(m, p, f) == \/ IsRotation(Open(NSeq(p)), Face(m, f))
+                       \/ IsRotation(Open(NSeq(p)), Reverse(Face(m, f)))
+\* all corners of face f on one parallel: its image in the (lon, lat) plane has zero area
+FlatFace(m, f) == \A a, b \in Corners(m, f) : LatCmp(m.nodes[a + 1], m.nodes[b + 1]) = 0
+ClosedRing(p) == Len(p) >= 2 /\ p[1][1] = p[Len(p)][1]
 AllMatched(p) == \A i \in 1..Len(p) : p[i][1] # -2
 
 (* ---- pieces of a split face --------------------------------------------------- *)
